@@ -4,7 +4,9 @@ use crate::common::{Case, Tally, gen_keyset, k16, size40, viol};
 use crate::root::{Rec, build_root, version_of};
 use cascette_client_storage::resolver::ContentResolver;
 use cascette_crypto::{ContentKey, EncodingKey};
-use cascette_formats::encoding::{CKeyEntryData, EKeyEntryData, EncodingBuilder};
+use cascette_crypto::FileDataId;
+use cascette_formats::encoding::{CKeyEntryData, EKeyEntryData, EncodingBuilder, EncodingFile};
+use cascette_formats::root::{RootBuilder, RootFile};
 use serde_json::{Value, json};
 use std::collections::BTreeMap;
 use vh::Ctx;
@@ -83,7 +85,7 @@ pub fn run(ctx: &Ctx, case: &Case, t: &mut Tally) {
             return;
         }
     };
-    let resolver = ContentResolver::new();
+    let resolver = if case.idx % 2 == 0 { ContentResolver::new() } else { ContentResolver::default() };
     let info: Value = json!({"records": built.recs.len(), "named": built.named_count, "ckeys_in_encoding": enc_model.len(), "ckeys_left_out": left_out, "path_style": style});
     if let Err(e) = resolver.load_root_file(&built.bytes) {
         viol(ctx, case, "C03|resolver|load_root_file|fails-on-built-manifest", "ContentResolver cannot load a RootBuilder-produced manifest", json!({"error": e.to_string(), "info": info}));
@@ -94,9 +96,130 @@ pub fn run(ctx: &Ctx, case: &Case, t: &mut Tally) {
         return;
     }
     ctx.eval_nontrivial(case.hash());
+    let probe_ckeys: Vec<[u8; 16]> = ckeys.iter().copied().chain(extra.iter().map(|k| k16(k))).collect();
+    let gone = Gone::default();
+    battery(ctx, case, t, &mut rng, &resolver, &built.recs, &built.paths, &enc_model, &probe_ckeys, &gone, &style, "", &info);
+    t.o(&format!("resolver.path_style.{style}"), 1);
+    if case.idx % RES_EXT_EVERY != 0 {
+        return;
+    }
+    // ---- coverage-driven extension (1): caches are transparent - after clear_caches() every lookup answers as before
+    let st = resolver.stats();
+    t.o("resolver.ext.stats_calls", 1);
+    t.o("resolver.ext.path_cache_entries_seen", st.path_cache_size as u64);
+    resolver.clear_caches();
+    t.o("resolver.ext.clear_caches", 1);
+    battery(ctx, case, t, &mut rng, &resolver, &built.recs, &built.paths, &enc_model, &probe_ckeys, &gone, &style, "after-clear_caches|", &info);
+    // ---- (2): edited manifests (RootBuilder::from_root_file / EncodingBuilder::from_encoding_file + removals and
+    // replacements) loaded into the same resolver: removed keys must be gone, replaced keys must resolve to the new value
+    let (Ok(root0), Ok(enc0)) = (RootFile::parse(&built.bytes), EncodingFile::parse(&enc_bytes)) else { return };
+    let mut rb = RootBuilder::from_root_file(&root0);
+    let mut recs2: Vec<(Rec, Option<String>)> = built.recs.iter().enumerate().map(|(i, r)| (r.clone(), built.paths.get(&i).cloned())).collect();
+    let mut gone = Gone::default();
+    let mut ids: Vec<u32> = built.recs.iter().map(|r| r.fdid).collect();
+    ids.sort_unstable();
+    ids.dedup();
+    for id in &ids {
+        match rng.below(8) {
+            0 => {
+                if rb.remove_file(FileDataId::new(*id)) {
+                    for (r, p) in recs2.iter().filter(|(r, _)| r.fdid == *id) {
+                        gone.hashes.extend(r.hash);
+                        gone.paths.extend(p.clone());
+                    }
+                    recs2.retain(|(r, _)| r.fdid != *id);
+                    gone.ids.push(*id);
+                }
+            }
+            1 => {
+                let nk: [u8; 16] = if rng.bool() { rng.array::<16>() } else { *rng.pick(&probe_ckeys) };
+                if rb.update_file(FileDataId::new(*id), ContentKey::from_bytes(nk)) > 0 {
+                    for (r, _) in recs2.iter_mut().filter(|(r, _)| r.fdid == *id) {
+                        r.ckey = nk;
+                    }
+                }
+            }
+            _ => {}
+        }
+    }
+    // a removed path whose hash is still carried by a surviving record is not gone
+    let live_hashes: std::collections::BTreeSet<u64> = recs2.iter().filter_map(|(r, _)| r.hash).collect();
+    gone.paths.retain(|p| !live_hashes.contains(&cascette_formats::root::calculate_name_hash(p)));
+    let mut eb = EncodingBuilder::from_encoding_file(&enc0);
+    let mut enc2 = enc_model.clone();
+    for ck in enc_model.keys() {
+        match rng.below(8) {
+            0 => {
+                if eb.remove_ckey_entry(&ContentKey::from_bytes(*ck)) {
+                    enc2.remove(ck);
+                    gone.ckeys.push(*ck);
+                }
+            }
+            1 => {
+                if eb.remove_ckey_entry(&ContentKey::from_bytes(*ck)) {
+                    let nv = (size40(&mut rng), vec![nonzero16(&mut rng), nonzero16(&mut rng)]);
+                    eb.add_ckey_entry(CKeyEntryData { content_key: ContentKey::from_bytes(*ck), file_size: nv.0, encoding_keys: nv.1.iter().copied().map(EncodingKey::from_bytes).collect() });
+                    enc2.insert(*ck, nv);
+                }
+            }
+            _ => {}
+        }
+    }
+    if recs2.is_empty() || enc2.is_empty() {
+        t.o("resolver.ext.reload_skipped_empty", 1);
+        return;
+    }
+    let (Ok(root_bytes), Ok(enc_bytes2)) = (rb.build(), eb.build().and_then(|f| f.build())) else {
+        t.o("resolver.ext.reload_builder_refused", 1);
+        return;
+    };
+    let recs3: Vec<Rec> = recs2.iter().map(|(r, _)| r.clone()).collect();
+    let paths3: BTreeMap<usize, String> = recs2.iter().enumerate().filter_map(|(i, (_, p))| p.clone().map(|p| (i, p))).collect();
+    let info2: Value = json!({"base": info, "records": recs3.len(), "removed_ids": gone.ids.len(), "removed_ckeys": gone.ckeys.len(), "ckeys_in_encoding": enc2.len()});
+    // the V2 header-layout ambiguity of 16..99-file manifests is judged by the root family
+    let named3 = recs3.iter().filter(|r| r.hash.is_some()).count();
+    if version == cascette_formats::root::RootVersion::V2 && (16..100).contains(&recs3.len()) && (1..=4).contains(&named3) {
+        t.o("resolver.ext.reload_skipped_listed_ambiguity", 1);
+        return;
+    }
+    if let Err(e) = resolver.load_root_file(&root_bytes) {
+        viol(ctx, case, "C03|resolver|after-reload|load_root_file|fails-on-built-manifest", "ContentResolver cannot load a manifest rebuilt by an edited RootBuilder", json!({"error": e.to_string(), "info": info2}));
+        return;
+    }
+    if let Err(e) = resolver.load_encoding_file(&enc_bytes2) {
+        viol(ctx, case, "C03|resolver|after-reload|load_encoding_file|fails-on-built-table", "ContentResolver cannot load a table rebuilt by an edited EncodingBuilder", json!({"error": e.to_string(), "info": info2}));
+        return;
+    }
+    t.o("resolver.ext.reloads", 1);
+    t.o("resolver.ext.reload_removed_ids", gone.ids.len() as u64);
+    t.o("resolver.ext.reload_removed_ckeys", gone.ckeys.len() as u64);
+    battery(ctx, case, t, &mut rng, &resolver, &recs3, &paths3, &enc2, &probe_ckeys, &gone, &style, "after-reload|", &info2);
+}
+
+/// Every `RES_EXT_EVERY`-th chain case also runs the cache-clearing and reload stages.
+const RES_EXT_EVERY: u64 = 2;
+
+fn nonzero16(rng: &mut vh::Rng) -> [u8; 16] {
+    let mut k = rng.array::<16>();
+    k[0] |= 1;
+    k
+}
+
+/// Keys that were removed by an edit and must no longer resolve.
+#[derive(Default)]
+struct Gone {
+    ids: Vec<u32>,
+    hashes: Vec<u64>,
+    paths: Vec<String>,
+    ckeys: Vec<[u8; 16]>,
+}
+
+/// Every resolver lookup for every inserted id / content key / path plus negative probes, against the models.
+#[allow(clippy::too_many_arguments, clippy::too_many_lines)]
+fn battery(ctx: &Ctx, case: &Case, t: &mut Tally, rng: &mut vh::Rng, resolver: &ContentResolver, recs: &[Rec], paths: &BTreeMap<usize, String>, enc_model: &BTreeMap<[u8; 16], (u64, Vec<[u8; 16]>)>, probe_ckeys: &[[u8; 16]], gone: &Gone, style: &str, ph: &str, info: &Value) {
     let mut by_fdid: BTreeMap<u32, Vec<&Rec>> = BTreeMap::new();
     let mut by_hash: BTreeMap<u64, Vec<&Rec>> = BTreeMap::new();
-    for r in &built.recs {
+    for r in recs {
         by_fdid.entry(r.fdid).or_default().push(r);
         if let Some(h) = r.hash {
             by_hash.entry(h).or_default().push(r);
@@ -110,7 +233,7 @@ pub fn run(ctx: &Ctx, case: &Case, t: &mut Tally) {
         lookups += 1;
         let ok = got.is_some_and(|k| recs.iter().any(|r| r.ckey == k));
         if !ok {
-            viol(ctx, case, "C03|resolver|resolve_file_data_id|inserted-id-not-resolved", "resolve_file_data_id does not return a content key inserted for the id", json!({"fdid": fdid, "got": got.map(hex::encode), "info": info}));
+            viol(ctx, case, &format!("C03|resolver|{ph}resolve_file_data_id|inserted-id-not-resolved"), "resolve_file_data_id does not return a content key inserted for the id", json!({"fdid": fdid, "got": got.map(hex::encode), "info": info}));
             continue;
         }
         let ck = got.unwrap_or_default();
@@ -119,40 +242,40 @@ pub fn run(ctx: &Ctx, case: &Case, t: &mut Tally) {
         // any entry of the id may be picked; the encoding key must belong to one of them
         let acceptable: Vec<Option<[u8; 16]>> = recs.iter().map(|r| ekey_of(&r.ckey)).collect();
         if !acceptable.contains(&got_e) {
-            viol(ctx, case, "C03|resolver|resolve_fdid_to_encoding|!=chain-of-inserted-values", "FileDataID -> CKey -> EKey chain differs from the inserted mappings", json!({"fdid": fdid, "ckey": hex::encode(ck), "got": got_e.map(hex::encode), "acceptable": acceptable.iter().map(|o| o.map(hex::encode)).collect::<Vec<_>>(), "info": info}));
+            viol(ctx, case, &format!("C03|resolver|{ph}resolve_fdid_to_encoding|!=chain-of-inserted-values"), "FileDataID -> CKey -> EKey chain differs from the inserted mappings", json!({"fdid": fdid, "ckey": hex::encode(ck), "got": got_e.map(hex::encode), "acceptable": acceptable.iter().map(|o| o.map(hex::encode)).collect::<Vec<_>>(), "info": info}));
         }
     }
     // content key -> encoding key, sizes
-    for ck in ckeys.iter().chain(extra.iter().map(|k| k16(k)).collect::<Vec<_>>().iter()) {
+    for ck in probe_ckeys {
         let got = resolver.resolve_content_key(&ContentKey::from_bytes(*ck)).map(|k| *k.as_bytes());
         lookups += 1;
         if got != ekey_of(ck) {
             let rel = if got.is_none() { "inserted-key-not-found" } else if ekey_of(ck).is_none() { "absent-key-found" } else { "wrong-value" };
-            viol(ctx, case, &format!("C03|resolver|resolve_content_key|{rel}"), "resolve_content_key differs from the inserted CKey -> EKey mapping", json!({"ckey": hex::encode(ck), "got": got.map(hex::encode), "expected": ekey_of(ck).map(hex::encode), "info": info}));
+            viol(ctx, case, &format!("C03|resolver|{ph}resolve_content_key|{rel}"), "resolve_content_key differs from the inserted CKey -> EKey mapping", json!({"ckey": hex::encode(ck), "got": got.map(hex::encode), "expected": ekey_of(ck).map(hex::encode), "info": info}));
         }
         let gs = resolver.get_content_size(&ContentKey::from_bytes(*ck));
         lookups += 1;
         if gs != enc_model.get(ck).map(|(s, _)| *s) {
-            viol(ctx, case, "C03|resolver|get_content_size|!=inserted", "get_content_size differs from the inserted size", json!({"ckey": hex::encode(ck), "got": gs, "expected": enc_model.get(ck).map(|(s, _)| *s), "info": info}));
+            viol(ctx, case, &format!("C03|resolver|{ph}get_content_size|!=inserted"), "get_content_size differs from the inserted size", json!({"ckey": hex::encode(ck), "got": gs, "expected": enc_model.get(ck).map(|(s, _)| *s), "info": info}));
         }
     }
     // path chain: the very string given to RootBuilder::add_file
-    for (ri, path) in &built.paths {
-        let rec = &built.recs[*ri];
+    for (ri, path) in paths {
+        let rec = &recs[*ri];
         let cands = rec.hash.and_then(|h| by_hash.get(&h)).cloned().unwrap_or_default();
         let got = resolver.resolve_path(path).map(|k| *k.as_bytes());
         lookups += 1;
         let ok = got.is_some_and(|k| cands.iter().any(|r| r.ckey == k));
         if !ok {
             let rel = if got.is_none() { "inserted-path-not-found" } else { "wrong-value" };
-            viol(ctx, case, &format!("C03|resolver|resolve_path|{rel}|path-style={style}"), "a path inserted through RootBuilder::add_file does not resolve through ContentResolver::resolve_path", json!({"path": path, "got": got.map(hex::encode), "expected_any_of": cands.iter().map(|r| hex::encode(r.ckey)).collect::<Vec<_>>(), "info": info}));
+            viol(ctx, case, &format!("C03|resolver|{ph}resolve_path|{rel}|path-style={style}"), "a path inserted through RootBuilder::add_file does not resolve through ContentResolver::resolve_path", json!({"path": path, "got": got.map(hex::encode), "expected_any_of": cands.iter().map(|r| hex::encode(r.ckey)).collect::<Vec<_>>(), "info": info}));
             continue;
         }
         let got_e = resolver.resolve_path_to_encoding(path).map(|k| *k.as_bytes());
         lookups += 1;
         let acceptable: Vec<Option<[u8; 16]>> = cands.iter().map(|r| ekey_of(&r.ckey)).collect();
         if !acceptable.contains(&got_e) {
-            viol(ctx, case, &format!("C03|resolver|resolve_path_to_encoding|!=chain-of-inserted-values|path-style={style}"), "path -> CKey -> EKey chain differs from the inserted mappings", json!({"path": path, "got": got_e.map(hex::encode), "info": info}));
+            viol(ctx, case, &format!("C03|resolver|{ph}resolve_path_to_encoding|!=chain-of-inserted-values|path-style={style}"), "path -> CKey -> EKey chain differs from the inserted mappings", json!({"path": path, "got": got_e.map(hex::encode), "info": info}));
         }
         let fi = resolver.get_file_info(path);
         lookups += 1;
@@ -161,22 +284,22 @@ pub fn run(ctx: &Ctx, case: &Case, t: &mut Tally) {
             Some(f) => cands.iter().any(|r| r.ckey == *f.content_key.as_bytes() && ekey_of(&r.ckey) == Some(*f.encoding_key.as_bytes()) && enc_model.get(&r.ckey).map(|(s, _)| *s) == Some(f.size)),
         };
         if !fi_ok {
-            viol(ctx, case, &format!("C03|resolver|get_file_info|!=chain-of-inserted-values|path-style={style}"), "get_file_info differs from the inserted mappings", json!({"path": path, "got": fi.map(|f| json!({"ckey": f.content_key.to_hex(), "ekey": f.encoding_key.to_hex(), "size": f.size})), "info": info}));
+            viol(ctx, case, &format!("C03|resolver|{ph}get_file_info|!=chain-of-inserted-values|path-style={style}"), "get_file_info differs from the inserted mappings", json!({"path": path, "got": fi.map(|f| json!({"ckey": f.content_key.to_hex(), "ekey": f.encoding_key.to_hex(), "size": f.size})), "info": info}));
         }
     }
     // negative probes
     let mut neg = 0u64;
-    for r in built.recs.iter().take(150) {
+    for r in recs.iter().take(150) {
         for id in [r.fdid.wrapping_add(1), r.fdid.wrapping_sub(1)] {
             if !by_fdid.contains_key(&id) {
                 neg += 1;
                 if let Some(k) = resolver.resolve_file_data_id(id) {
-                    viol(ctx, case, "C03|resolver|resolve_file_data_id|absent-id-resolves", "an id that was not inserted resolves", json!({"fdid": id, "got": k.to_hex(), "info": info}));
+                    viol(ctx, case, &format!("C03|resolver|{ph}resolve_file_data_id|absent-id-resolves"), "an id that was not inserted resolves", json!({"fdid": id, "got": k.to_hex(), "info": info}));
                 }
             }
         }
     }
-    for (_, path) in built.paths.iter().take(150) {
+    for (_, path) in paths.iter().take(150) {
         for variant in [format!("{path}.bak"), format!("x{path}")] {
             neg += 1;
             let h = cascette_formats::root::calculate_name_hash(&variant);
@@ -184,7 +307,7 @@ pub fn run(ctx: &Ctx, case: &Case, t: &mut Tally) {
                 continue;
             }
             if let Some(k) = resolver.resolve_path(&variant) {
-                viol(ctx, case, "C03|resolver|resolve_path|absent-path-resolves", "a path that was not inserted resolves", json!({"path": variant, "got": k.to_hex(), "info": info}));
+                viol(ctx, case, &format!("C03|resolver|{ph}resolve_path|absent-path-resolves"), "a path that was not inserted resolves", json!({"path": variant, "got": k.to_hex(), "info": info}));
             }
         }
     }
@@ -192,10 +315,31 @@ pub fn run(ctx: &Ctx, case: &Case, t: &mut Tally) {
         let k = rng.array::<16>();
         neg += 1;
         if !enc_model.contains_key(&k) && resolver.resolve_content_key(&ContentKey::from_bytes(k)).is_some() {
-            viol(ctx, case, "C03|resolver|resolve_content_key|absent-key-found", "a content key that was not inserted resolves", json!({"ckey": hex::encode(k), "info": info}));
+            viol(ctx, case, &format!("C03|resolver|{ph}resolve_content_key|absent-key-found"), "a content key that was not inserted resolves", json!({"ckey": hex::encode(k), "info": info}));
+        }
+    }
+    // keys removed by an edit
+    for id in &gone.ids {
+        neg += 1;
+        if let Some(k) = resolver.resolve_file_data_id(*id) {
+            viol(ctx, case, &format!("C03|resolver|{ph}resolve_file_data_id|removed-id-resolves"), "a FileDataID removed from the manifest still resolves after the edited manifest was loaded", json!({"fdid": id, "got": k.to_hex(), "info": info}));
+        }
+    }
+    for p in &gone.paths {
+        neg += 1;
+        if let Some(k) = resolver.resolve_path(p) {
+            viol(ctx, case, &format!("C03|resolver|{ph}resolve_path|removed-path-resolves"), "a path whose file was removed from the manifest still resolves after the edited manifest was loaded", json!({"path": p, "got": k.to_hex(), "info": info}));
+        }
+    }
+    for ck in &gone.ckeys {
+        neg += 1;
+        if !enc_model.contains_key(ck) && (resolver.resolve_content_key(&ContentKey::from_bytes(*ck)).is_some() || resolver.get_content_size(&ContentKey::from_bytes(*ck)).is_some()) {
+            viol(ctx, case, &format!("C03|resolver|{ph}resolve_content_key|removed-key-found"), "a content key removed from the encoding table still resolves after the edited table was loaded", json!({"ckey": hex::encode(ck), "info": info}));
         }
     }
     t.o("resolver.lookups", lookups + neg);
     t.o("resolver.negative_probes", neg);
-    t.o(&format!("resolver.path_style.{style}"), 1);
+    if !ph.is_empty() {
+        t.o(&format!("resolver.{}lookups", ph.replace('|', ".")), lookups + neg);
+    }
 }
